@@ -193,7 +193,7 @@ def run_case(ck, case, reqs, pending):
                 ck.fail("the tension table lists exactly the internal interfaces in order", f"frame {t}", case, signature=sig)
         if psolves:
             pm = f.pressure_matrices[t]
-            if obs["storeP"] is None or any(c is None for c in obs["cellP"]) or \
+            if obs["storeP"] is None or any(c is None for c in obs["cellP"]) or len(obs["storeP"]) != len(obs["cellP"]) or \
                     not close([obs["storeP"][pm.mapping_order[cid]] for cid in fr.cells], obs["cellP"]):
                 ck.fail("each cell carries its own pressure and the per-frame store holds frame t's pressures under key t", f"frame {t}", case, signature=sig)
             else:
